@@ -277,7 +277,7 @@ def run(chk, prog, tier):
     from props.c06 import protocol, STREAMING
     for key in ("angular.py::AngularRate", "madgwick.py::Madgwick", "mahony.py::Mahony", "aqua.py::AQUA", "ekf.py::EKF", "roleq.py::ROLEQ"):
         protocol(chk, prog, prog.cls("ahrs/filters/" + key), STREAMING[key])
-    chk.require_count("PROTOCOL", 9)
+    chk.require_count("PROTOCOL", 8)
     chk.require_count("OMEGA.action", 5)
     chk.require_count("STEP.null-acc", 3)
     canaries(chk, prog)
